@@ -93,6 +93,14 @@ def translate_source():
     except Exception as e:
         open(out5, 'w').write('/-! source-level translation of server_tty.py failed on this tree -/\n')
         status['Tty'] = 'untranslatable: translator failed (' + type(e).__name__ + ')'
+    # and the convenience setters of the message classes
+    out6 = os.path.join(LEAN, 'UbxModel', 'Gen', 'SrcHelpers.lean')
+    try:
+        r = sh([PY, os.path.join(ROOT, 'tools', 'pysrc2lean_helpers.py'), REPO, out6], timeout=120)
+        status['Helpers'] = r.stdout.strip().splitlines()[-1]
+    except Exception as e:
+        open(out6, 'w').write('/-! source-level translation of the helper setters failed on this tree -/\n')
+        status['Helpers'] = 'untranslatable: translator failed (' + type(e).__name__ + ')'
     return status
 
 
@@ -105,6 +113,8 @@ SRC_THEOREMS = {
     'CfgItem': ['cfg_pack_value', 'cfg_pack_keyid', 'cfg_pack', 'cfg_unpack_value', 'cfg_unpack', 'cfg_from_key'],
     'Types': ['item_pack', 'item_unpack', 'fields_pack', 'fields_unpack'],
     'Tty': ['tty_receive', 'tty_receive_closed', 'tty_transmit', 'tty_flush_input', 'tty_recover', 'scan_loop', 'tty_scan'],
+    'Helpers': ['item_assign_same', 'item_assign_other', 'assign_names', 'h_set_rate', 'h_set_rate_refused', 'h_cfg_save', 'h_cfg_reset', 'h_rst', 'h_sos',
+                'h_esfla_set', 'h_set_datetime', 'h_find_entry', 'h_enable_gnss', 'h_disable_gnss', 'h_gps_glonass', 'h_gps_galileo_beidou', 'h_lever_arm'],
     'Server': ['srv_check_poll', 'srv_check_ack_nak', 'srv_check_mga', 'srv_send', 'srv_wait', 'srv_set', 'srv_set_mga',
                'srv_set_mga_other_class', 'srv_fire_and_forget', 'srv_set_retries', 'srv_set_retry_delay', 'srv_poll'],
 }
@@ -117,6 +127,7 @@ TRANSFERS = {   # module -> (classes it needs, theorems)
     'TransferCfg': (['CfgItem', 'CfgKeyData'], ['src_item_roundtrip', 'src_unpack_dichotomy', 'src_pack_rejects_ids']),
     'TransferTypes': (['Types'], ['generated_tables_known', 'src_decoded_as_prescribed', 'src_encode_after_decode']),
     'TransferTty': (['Tty', 'UbxParser', 'NmeaParser'], ['src_scan_verdict', 'src_scan_time', 'src_tty_transmit', 'src_tty_recover']),
+    'TransferHelpers': (['Helpers'], ['src_enable_gnss_spec', 'src_disable_gnss_spec', 'src_lever_arm_first']),
     'TransferServer': (['Server', 'UbxParser'], ['src_set_returns_bounded', 'src_set_mga_returns_bounded', 'src_poll_returns_bounded', 'src_set_result',
                                                  'src_poll_result', 'src_set_kth', 'src_set_like_fresh', 'src_poll_like_fresh', 'src_poll_all_same']),
 }
